@@ -517,6 +517,8 @@ func init() {
 		ruleFCShrink(r)
 		ruleFCLocked(r)
 		ruleFCClient(r)
+		// the collectors remove and truncate files the cache may have lent out
+		r.support([]string{"gc-not-current", "header-before-remove"})
 	},
 		"Decides structural necessary conditions of 'never closes a lent handle', not the behaviour over all operation sequences: every os.File.Close in package filecache (inventory, min 3) is dominated by last-holder evidence (entry refs == 0; removed-count == 1; or the handle is unmanaged: absent from removed and not the File held by the cached entry); FileCache.Close changes an entry's count only after showing the entry holds this very *os.File; counts are incremented exactly where a cached handle is handed out, decremented only behind a non-zero check, evicted-but-referenced entries move to removed with their count; every access to FileCache/entry fields holds FileCache.lock (lockset analysis with all exported methods as self-concurrent roots); every client Open outside the package is paired with FileCache.Close of the same cache on all success paths and the handle does not escape. Not covered: descriptor-count bound, behaviour under arbitrary operation orders beyond these guards.",
 		"entries reached through container/list elements are identified by (element, Value) loads; list internals are external code")
